@@ -472,7 +472,11 @@ class SelectionGraphBuilder:
         if to_ty is ir.ptr:
             to_ty = self.ptr_ty
 
-        if (
+        if from_ty is to_ty:
+            # A cast to the same type is a no-op for every type:
+            src_value = self.get_value(node.src)
+            self.add_map(node, src_value)
+        elif (
             from_ty.is_integer
             and to_ty.is_integer
             and from_ty.bits == to_ty.bits
